@@ -119,7 +119,7 @@ def gen_content(rng, cfg, size='normal'):
             for _ in range(rng.below(4)):
                 t = rng.choice([2, 2, 2, 1, 3, 4])
                 n = rng.choice([1, 2, 3, 5, 255]) if size == 'big' and rng.chance(1, 5) else rng.choice([0, 1, 2, 3, 5])
-                segs.append((t, [rng.choice([1, 64512, 65535] + ([65536, 4200000000] if (four or code == 17) else [])) for _ in range(n)]))
+                segs.append((t, [rng.choice([1, 23456, 64512, 65535] + ([65536, 4200000000] if (four or code == 17) else [])) for _ in range(n)]))
             v = enc_path(segs, four or code == 17)
             exp['aspath' if code == 2 else 'as4path'] = hops_display(segs)
         elif code in (3, 9, 20):
@@ -135,7 +135,7 @@ def gen_content(rng, cfg, size='normal'):
         elif code == 6:
             v = b''; exp['atomic'] = '1'
         elif code == 7:
-            asn = rng.choice([1, 65535] + ([65536, 4200000000] if four else []))
+            asn = rng.choice([1, 23456, 65535] + ([65536, 4200000000] if four else []))
             addr = bytes(rng.below(256) for _ in range(4))
             v = asn.to_bytes(4 if four else 2, 'big') + addr
             exp['agg'] = '%d:%s' % (asn, addr.hex())
